@@ -191,7 +191,7 @@ Qed.
 Lemma end_task_CInv b now m j how s tk : CInv b now m j s -> CInv b now m j (end_task m how s tk).
 Proof.
   intros H. unfold end_task. apply CInv_say_plain; [reflexivity|]. destruct s as [w1 l1].
-  apply (CInv_world b now m j {| x_w := w1; x_log := l1 |}); try exact H; cbn [x_w]; rewrite mod_same; reflexivity.
+  apply (CInv_world b now m j {| x_w := w1; x_log := l1 |}); try exact H; reflexivity.
 Qed.
 
 Lemma fold_end_task_CInv b now m j : forall l s, CInv b now m j s -> CInv b now m j (fold_left (end_task m 0) l s).
